@@ -397,6 +397,10 @@ pub struct KillCase {
 	pub after_acks: u16,
 	/// ... plus this many microseconds
 	pub delay_us: u16,
+	/// after the first kill: start a second process on the directory (it runs recovery with
+	/// its worker threads) and kill it after this many microseconds, before the final reopen
+	#[serde(default)]
+	pub rekill_us: Option<u16>,
 }
 
 /// Child side: runs the commits of the scenario with background workers, acknowledging each.
@@ -439,7 +443,7 @@ pub fn kill_child_main(dir: &str, scenario_file: &str) -> i32 {
 }
 
 fn kill_scenario() -> impl Strategy<Value = Scenario> {
-	(mixed_cfg(3, false), 0u8..3).prop_flat_map(|(mut cfg, af)| {
+	(mixed_cfg(3, true), 0u8..3).prop_flat_map(|(mut cfg, af)| {
 		cfg.always_flush = af > 0;
 		proptest::collection::vec(mixed_items(&cfg, 12, 40_000, 6, 3).prop_map(Op::Commit), 3..25).prop_map(move |ops| Scenario { cfg: cfg.clone(), ops })
 	})
@@ -453,6 +457,8 @@ pub fn run_kill_case(case: &KillCase, dir: &Path) -> CaseResult {
 	let mut model_it = Interp::new(&sc.cfg, &dir.join("model"), Interp::universe_of(sc));
 	model_it.keep_prefix = true;
 	model_it.check_every_op = false;
+	// the child runs with worker threads: same resolution of root keys here
+	model_it.no_root_reuse = true;
 	model_it.open()?;
 	for op in &sc.ops {
 		model_it.step(op)?;
@@ -509,6 +515,21 @@ pub fn run_kill_case(case: &KillCase, dir: &Path) -> CaseResult {
 	let _ = reader.read_to_string(&mut later);
 	let acked_total = acks + later.lines().filter(|l| l.starts_with("ACK")).count();
 	let committed = acked_total.min(total);
+	if let Some(us) = case.rekill_us {
+		// a process killed while it recovers the directory
+		let exe = std::env::current_exe().map_err(|e| Failure::new("harness-io", e.to_string()))?;
+		let mut child = std::process::Command::new(exe)
+			.args(["kill-child", db_dir.to_str().unwrap(), scf.to_str().unwrap()])
+			.stdin(std::process::Stdio::piped())
+			.stdout(std::process::Stdio::null())
+			.stderr(std::process::Stdio::null())
+			.spawn()
+			.map_err(|e| Failure::new("harness-io", e.to_string()))?;
+		std::thread::sleep(std::time::Duration::from_micros(us as u64));
+		let _ = child.kill();
+		let _ = child.wait();
+		out.label("killed-again-while-recovering");
+	}
 	let info = ImageInfo {
 		faulted: true,
 		committed,
@@ -646,15 +667,17 @@ fn run(ctx: &Ctx) {
 	}
 	// kill mode: real worker threads, SIGKILL at a generated moment (any instant, not only the
 	// library's file-operation sites)
-	let n = scaled(ctx, 6_000, 80_000);
+	let n = scaled(ctx, 4_000, 80_000);
 	let _ = ctx.run_prop_shrink(
 		"kill",
 		n,
 		30,
 		prop_oneof![
-			6 => (kill_scenario(), any::<u16>(), prop_oneof![Just(0u16), 0u16..2000, 0u16..30000]).prop_map(|(sc, after_acks, delay_us)| KillCase { sc, after_acks, delay_us }),
+			6 => (kill_scenario(), any::<u16>(), prop_oneof![Just(0u16), 0u16..2000, 0u16..30000]).prop_map(|(sc, after_acks, delay_us)| KillCase { sc, after_acks, delay_us, rekill_us: None }),
+			// a second process is killed while it recovers what the first one left
+			3 => (kill_scenario(), any::<u16>(), 0u16..3000, 300u16..6000).prop_map(|(sc, after_acks, delay_us, r)| KillCase { sc, after_acks, delay_us, rekill_us: Some(r) }),
 			// kills aimed at the creation of the database (the child needs ~1-2 ms to get there)
-			2 => (kill_scenario(), 300u16..3500).prop_map(|(sc, delay_us)| KillCase { sc, after_acks: 0, delay_us }),
+			2 => (kill_scenario(), 300u16..3500).prop_map(|(sc, delay_us)| KillCase { sc, after_acks: 0, delay_us, rekill_us: None }),
 		],
 		run_kill_case,
 	) && {
